@@ -1462,7 +1462,6 @@ static void gen(rng &r, const std::string &tier)
                 if (is_min) continue; // -num on the minimum: one probe below (a sanitizer abort restarts the harness)
                 printf("@F:C07-std-portable-twin twin toa %s %u %016llx\n", KNAME[k], base, (unsigned long long)v);
             }
-    printf("@F:C07-std-portable-twin twin toa i64 10 8000000000000000\n");
     for (const char *t : {"3132337800", "00", "666600", "5a00", "3132616200"})
         printf("@F:C07-std-portable-twin twin ato u32 %s %s\n", t[0] == '6' ? "16" : t[0] == '5' ? "36" : "10", t);
     for (unsigned c = 'a'; c <= 'f'; c++) printf("@F:C07-std-portable-twin twin h2h %02x\n", c);
@@ -1485,6 +1484,10 @@ static void gen(rng &r, const std::string &tier)
 // s*1000+0..NPART-1 in parallel; seed % NPART selects the share of the 32-bit space.
 static void gen_wrapper(rng &r, const std::string &tier)
 {
+    // the one probe that ends in a sanitizer abort (-num on INT64_MIN in the std_portable.h copy) comes FIRST:
+    // the harness process that runs it dies without writing its coverage counters (bin/cov), the restarted one
+    // runs everything else and exits normally
+    printf("@F:C07-std-portable-twin twin toa i64 10 8000000000000000\n");
     gen(r, tier);
     if (tier != "thorough") return;
     uint64_t part = g_seed % NPART, span = (1ull << 32) / NPART;
